@@ -206,7 +206,7 @@ impl Status {
     fn parse(cursor: &mut Cursor<&[u8]>) -> Result<Self> {
         let code: u16 = cursor.read_bytes_le()?;
 
-        let namespace = (code >> 13_i32) & 0x11;
+        let namespace = (code >> 13_i32) & 0b11;
         match namespace {
             0b00 => Self::parse_gencp_status(code),
             0b01 => Self::parse_usb_status(code),
